@@ -45,6 +45,8 @@ def run(ctx):
     _errors(rc)
     res.assumptions += ["real-number reading", "numpy reductions per kverif.npmodel", "argmin returns an index of the minimum"]
     res.not_decided += ["ranges [0,1] / [-1,1] (corollaries of S1-S4)", "greedy-order semantics beyond S1/S3"]
+    from .common import hidden_state as _hidden_state
+    _hidden_state(rc, "S8", ['evaluation.cm', 'evaluation.mae', 'evaluation.mse', 'evaluation.rmse', 'evaluation.rmspe', 'evaluation.accuracy', 'evaluation.f1score', 'evaluation.mcc'], "the evaluation scores")
     res.require_instances("C19 obligations", len(res.obligations), 20)
 
 
@@ -89,6 +91,8 @@ def _cm(rc: RuleCtx):
         benv[n] = ev.symbol(n)
     for n in lists:
         benv[n] = ev.symbol(n + "@list")
+    from .common import carry
+    carry(ev, loop, env, benv)
     out = ev.eval_loop_body(fi, loop, benv)
     if out.breaks or out.returns:
         raise AnalysisError("evaluation.cm: break / return inside the matching loop")
